@@ -43,7 +43,7 @@ FORMATS = ["unified", "json", "summary", "standard"]
 
 def case_key(case):
     parts = [n + ":" + L.sha(L.dec(c)) for n, c in sorted(case["files"].items())]
-    return L.sha("|".join(parts) + "|" + " ".join(L.flags_for(case["cfg"])) + "|" + str(case.get("stdin", "")))
+    return L.sha("|".join(parts) + "|" + " ".join(L.flags_for(case["cfg"])) + "|" + str(case.get("stdin", "")) + "|" + " ".join(case.get("extra_args", [])))
 
 
 def run_case(case, ref, timeout=120):
@@ -242,6 +242,15 @@ def build_workload(tier, seed, ref):
             cases.append(c)
     cases += pinned_special()
     cases += pinned_d9()
+    # the machine-readable formats are the same bytes whatever --color says (a diff is applied by a program)
+    for k, c in enumerate(pinned_special() + pinned_d9()):
+        for col in (("always", "never") if (not quick or k % 2 == 0) else ("always",)):
+            c2 = dict(c)
+            c2["extra_args"] = ["--color", col]
+            c2["formats"] = [f for f in c.get("formats", FORMATS) if f != "standard"]
+            c2["family"] = str(c.get("family")) + ":color-" + col
+            if c2["formats"]:
+                cases.append(c2)
     # ---- pinned 3: multi-file runs
     texts = [t.encode("utf-8") for _, t in corpus]
     for k in range(0, len(texts) - 6, 60 if quick else 12):
